@@ -12,8 +12,8 @@
 (***************************************************************************)
 EXTENDS Trace_SeqApi
 
-VARIABLES fviol, fcnt
-fvars == <<l, ln0, bid, unit, D, W, failed, viol, drift, cnt, fviol, fcnt>>
+VARIABLES fviol, fcnt, fdrift, fkeys
+fvars == <<l, ln0, bid, unit, D, W, failed, viol, drift, cnt, fviol, fcnt, fdrift, fkeys>>
 
 USet(q) == {q[i] : i \in 1..Len(q)}
 (* abstract content of an encoded state: units [id, origin, right origin, kind, text] and delete set *)
@@ -28,27 +28,46 @@ AttrReadsAgree(dump) ==
 (* every field is the canonical JSON text of the observation, compared field by field as strings                         *)
 ExtrasEq(a, b) == DOMAIN a = DOMAIN b /\ \A k \in DOMAIN a : a[k] = b[k]
 
+(* Two NATIVE executions of the same program in one process (twin.r, twin.r2): where they disagree on the encoded state the    *)
+(* library itself is not deterministic for this program (attribute maps are iterated in hash order when several formatting     *)
+(* keys are in force: the marks get their ids in a different order), so "the" state of a natively driven document, which the   *)
+(* C-driven one has to equal, does not exist: the comparison is then DRIFT `native-nondeterministic`, not a verdict about the C API *)
+(* formatting keys passed to the calls of this behaviour so far.  With two or more keys in play the library builds attribute  *)
+(* maps with several entries and walks them in hash order: the encoded state of two NATIVE executions may differ already.       *)
+KeysOfCall(ev) ==
+  LET c == Norm(ev.ncall) IN
+  {a[1] : a \in c.attrs} \cup UNION {{a[1] : a \in c.ops[j].attrs} : j \in 1..Len(c.ops)}
+OrderSensitive(ev) == Cardinality(fkeys \cup KeysOfCall(ev)) >= 2
+
+NativeDet(ev) ==
+  /\ ~OrderSensitive(ev)
+  /\ IF "r2" \in DOMAIN ev.twin
+     THEN AbsEq(ev.twin.r.st, ev.twin.r2.st) /\ (ev.committed => AbsEq(ev.twin.r.sta, ev.twin.r2.sta))
+     ELSE TRUE
+
 FChecks(ev) ==
   << <<"C19_NoAbort", ~ev.aborted>>,   \* the process died inside an exported function (event written by the supervisor)
-     <<"C19_EncodedStateEqual", AbsEq(ev.twin.c.st, ev.twin.r.st) /\ (ev.committed => AbsEq(ev.twin.c.sta, ev.twin.r.sta))>>,
+     <<"C19_EncodedStateEqual", ~NativeDet(ev) \/ (AbsEq(ev.twin.c.st, ev.twin.r.st) /\ (ev.committed => AbsEq(ev.twin.c.sta, ev.twin.r.sta)))>>,
      <<"C19_OutcomeEqual", ev.twin.c.outcome = ev.twin.r.outcome>>,
      <<"C19_XmlStringEqual", ev.twin.c.xml = ev.twin.r.xml>>,
      <<"C19_AttrReadsAgree", AttrReadsAgree(ev.dump)>>,
-     <<"C19_ExtrasEqual", ExtrasEq(ev.twin.c.x, ev.twin.r.x)>> >>
+     <<"C19_ExtrasEqual", ~NativeDet(ev) \/ ExtrasEq(ev.twin.c.x, ev.twin.r.x)>> >>
 
 FCall ==
   /\ Call
   /\ LET chk == FChecks(Ev)
      IN /\ fviol' = fviol \cup {<<bid, p, l - ln0>> : p \in Failing(chk)}
         /\ fcnt' = fcnt + Len(chk)
+        /\ fdrift' = IF NativeDet(Ev) THEN fdrift ELSE fdrift \cup {<<bid, "native-nondeterministic", l - ln0>>}
+        /\ fkeys' = fkeys \cup KeysOfCall(Ev)
 
-TInitF == TInit /\ fviol = {} /\ fcnt = 0
+TInitF == TInit /\ fviol = {} /\ fcnt = 0 /\ fdrift = {} /\ fkeys = {}
 TNextF == /\ l <= Len(Rec) /\ l' = l + 1
-          /\ \/ (Reset /\ UNCHANGED <<fviol, fcnt>>)
-             \/ (Skip /\ UNCHANGED <<fviol, fcnt>>)
+          /\ \/ (Reset /\ fkeys' = {} /\ UNCHANGED <<fviol, fcnt, fdrift>>)
+             \/ (Skip /\ UNCHANGED <<fviol, fcnt, fdrift, fkeys>>)
              \/ FCall
 TSpecF == TInitF /\ [][TNextF]_fvars
 VerdictF == l = Len(Rec) + 1 =>
-              PrintT(<<"VERDICT", ToJson([viol |-> viol \cup fviol, drift |-> drift,
+              PrintT(<<"VERDICT", ToJson([viol |-> viol \cup fviol, drift |-> drift \cup fdrift,
                                           cnt |-> [cnt EXCEPT !.checks = @ + fcnt], lines |-> Len(Rec)])>>)
 =============================================================================
